@@ -25,7 +25,35 @@ pub mod c19;
 pub mod c20;
 pub mod hist;
 
+/// `--replay <file>`: re-execute one recorded violation without the explorer (scheduler-based checks),
+/// or print the recorded self-describing case (enumeration checks)
+fn replay(args: &Args, path: &str) -> i32 {
+    let Ok(txt) = std::fs::read_to_string(path) else {
+        eprintln!("cannot read replay file {path}");
+        return 2;
+    };
+    let Ok(v) = serde_json::from_str::<serde_json::Value>(&txt) else {
+        eprintln!("replay file {path} is not JSON");
+        return 2;
+    };
+    let identity = v["identity"].as_str().unwrap_or("").to_string();
+    let choices: Vec<u32> = v["detail"]["choices"].as_array().map(|a| a.iter().filter_map(|x| x.as_u64().map(|y| y as u32)).collect()).unwrap_or_default();
+    match args.id.as_str() {
+        "C12" => c12::replay(args, &identity, choices),
+        "C13" => c13::replay(args, &identity, choices),
+        _ => {
+            println!("recorded violation of {} (identity: {identity})", args.id);
+            println!("{}", serde_json::to_string_pretty(&v["detail"]).unwrap_or_default());
+            println!("(enumeration check: the recorded case above is the complete failing input; re-running `bin/check {} --tier quick` re-derives it)", args.id);
+            1
+        }
+    }
+}
+
 pub fn dispatch(args: &Args) -> i32 {
+    if let Some(p) = &args.replay {
+        return replay(args, p);
+    }
     match args.id.as_str() {
         "C01" => c01::run(args),
         "C02" => c02::run(args),
